@@ -42,6 +42,8 @@ type c02Case struct {
 	Scale  int       `json:"scale"` // one model line = Scale real lines (+ jitter), one model read = Scale copy iterations
 	Lines  [][]int   `json:"lines"` // real line counts per command/file (computed by the driver)
 	NoFinalNL bool   `json:"nofinalnl"` // the files end without a newline
+	Max       int    `json:"max"`       // grep only: stop after so many selected lines per file (the reader is cancelled, the rest of
+	                                    // the file is never queued; the session must still end)
 	DrainUs   int    `json:"drainus"`   // after the behaviour: a consumer that needs this many microseconds per message (the
 	                                    // readers stay ahead of it, their queues are full when they reach the end of the file)
 }
@@ -107,6 +109,9 @@ func c02Run(c c02Case, base string) (res c02Result) {
 				content = strings.TrimSuffix(content, "\n")
 			}
 			os.WriteFile(filepath.Join(cdir, name), []byte(content), 0644)
+			if c.Grep && c.Max > 0 && len(sel) > c.Max {
+				sel = sel[:c.Max]
+			}
 			source[name] = sel
 			res.Expected[name] = len(sel)
 		}
@@ -129,6 +134,9 @@ func c02Run(c c02Case, base string) (res c02Result) {
 			mode, regex := "cat", "regex:noop "
 			if c.Grep {
 				mode, regex = "grep", "regex:default 7"
+				if c.Max > 0 {
+					mode = fmt.Sprintf("grep:max=%d", c.Max)
+				}
 			}
 			ch.SendMessage(fmt.Sprintf("%s:quiet=true %s %s", mode, filepath.Join(dir, fmt.Sprintf("c%d", k+1), "*.log"), regex))
 		}
